@@ -223,6 +223,9 @@ func (g *FnGen) Discharge(workDir string, timeoutMs int, keep bool) {
 	var todo []*Obligation
 	for _, ob := range g.obs {
 		r := res[ob.item]
+		if os.Getenv("GOVC_FORCE_RACE") != "" {
+			r = "" // diagnosis: every obligation must also be provable on its own
+		}
 		if r == "unsat" {
 			ob.Status = "unsat"
 			ob.Solver = solvers[0].Name
